@@ -46,6 +46,21 @@ Theorem C19_metric_strategy_valid : forall sh metric,
   (forall s, Permutation (sh s) s) -> valid (metric_strategy sh metric).
 Proof. exact metric_strategy_valid. Qed.
 
+(* MetricCache (metric_cache.go) memoises the metric function behind QuorumIndexer's strategy: over a
+   function that does not change (one recacheState generation), for ANY capacity and ANY eviction
+   policy that only drops entries, every sequence of look-ups through one cache (started empty or
+   sound) returns exactly the function's values - so a MetricStrategy behind the cache chooses as
+   the plain one (C19_metric_choose_maximal applies unchanged). *)
+Theorem C19_memo_run_is_f : forall f evict ids c, mc_sound f c -> drops_only evict ->
+  fst (memo_run f evict c ids) = map f ids /\ mc_sound f (snd (memo_run f evict c ids)).
+Proof. exact memo_run_is_f. Qed.
+Example C19_ex_memo : mc_sound (fun x => x * x) [] /\ drops_only (fun c => firstn 1 c) /\
+  fst (memo_run (fun x => x * x) (fun c => firstn 1 c) [] [3; 4; 5; 3; 4]) = [9; 16; 25; 9; 16].
+Proof.
+  split; [intros id m []|]. split; [intros c p H; destruct c as [|a c]; [exact H|]; destruct H as [H|[]]; left; exact H|].
+  vm_compute. reflexivity.
+Qed.
+
 (* the executable verdicts used by the correspondence driver are the Props *)
 Theorem C19_wf_result_b_spec : forall existing options nstrat result,
   wf_result_b existing options nstrat result = true <-> wf_result existing options nstrat result.
@@ -87,5 +102,6 @@ Print Assumptions C19_choose_parents_trace.
 Print Assumptions C19_choose_parents_no_panic.
 Print Assumptions C19_metric_choose_maximal.
 Print Assumptions C19_metric_strategy_valid.
+Print Assumptions C19_memo_run_is_f.
 Print Assumptions C19_wf_result_b_spec.
 Print Assumptions C19_maximal_b_spec.
